@@ -620,6 +620,8 @@ func (e *Exec) evalGhostBuiltin(st *State, call *ast.CallExpr, name string) Term
 		return e.sumSeq(st, call)
 	case "__enum":
 		return e.enumPred(st, call)
+	case "__enumlemma":
+		return e.enumLemma(st, call)
 	case "__dyn":
 		v := e.eval(st, call.Args[0])
 		tv, _ := e.tvOf(call.Args[1])
@@ -687,7 +689,14 @@ func (e *Exec) evalSet(st *State, x ast.Expr) Term {
 	}
 	if mt, ok := t.Underlying().(*types.Map); ok {
 		m := e.eval(st, x)
-		return Select(e.heapGet(st, e.mapKey(mt).dom), m)
+		mk := e.mapKey(mt)
+		dom := e.heapGet(st, mk.dom)
+		// the nil map has no entries in any reachable heap (a write through a nil map panics)
+		if !strings.Contains(dom.S, "!q") {
+			ks := e.S.SortOf(mt.Key())
+			e.Ctx.Assume(True, Eq(Select(dom, Int(0)), Term{fmt.Sprintf("((as const %s) false)", ArraySort(ks, SBool)), ArraySort(ks, SBool)}))
+		}
+		return Select(dom, m)
 	}
 	v := e.eval(st, x)
 	if strings.HasPrefix(v.Sort, "VM_") {
@@ -744,6 +753,7 @@ func (e *Exec) countFun(st *State, call *ast.CallExpr, lit *ast.FuncLit, seq boo
 			fvs = append(fvs, t.Sort)
 		}
 	}
+	fv, fvs = orderByFirstUse(p.S, fv)
 	txt := p.S
 	// canonical text: replace free symbols by positional names
 	canon := txt
@@ -788,6 +798,24 @@ func (e *Exec) countFun(st *State, call *ast.CallExpr, lit *ast.FuncLit, seq boo
 			arrSort, strings.Join(params, " "), name, argl, name, argl, predAt, name, argl))
 	}
 	return name, fv, ks
+}
+
+// orderByFirstUse orders the free symbols of a lambda body by their first occurrence in its text, so that two
+// bodies of the same shape over differently named symbols get the same canonical form (and fold function).
+func orderByFirstUse(text string, fv []Term) ([]Term, []string) {
+	first := map[string]int{}
+	tok := strings.FieldsFunc(text, func(r rune) bool { return r == '(' || r == ')' || r == ' ' || r == '\n' || r == '\t' })
+	for i, t := range tok {
+		if _, ok := first[t]; !ok {
+			first[t] = i
+		}
+	}
+	sort.SliceStable(fv, func(i, j int) bool { return first[fv[i].S] < first[fv[j].S] })
+	var fvs []string
+	for _, t := range fv {
+		fvs = append(fvs, t.Sort)
+	}
+	return fv, fvs
 }
 
 func replaceSymbol(s, sym, by string) string {
@@ -898,6 +926,62 @@ func (e *Exec) enumPred(st *State, call *ast.CallExpr) Term {
 	complete := fmt.Sprintf("(forall ((%s %s)) (=> (and (select %s %s) %s) (exists ((%s Int)) (and (<= 0 %s) (< %s %s) (= (select %s %s) %s)))))", k.S, ks, set.S, k.S, p.S, i, i, i, ln, arr, i, k.S)
 	e.Ctx.NeedsQuant = true
 	return Term{fmt.Sprintf("(and %s %s %s)", nodup, sound, complete), SBool}
+}
+
+// enumLemma: __enumlemma(s, set, P, Q, PQ) — applies the (assumed, mathematical) rule "counting Q over a
+// duplicate-free enumeration s of {k in set | P(k)} equals counting PQ over set, where PQ(k) = P(k) && Q(k)".
+// The instance is added as a fact; the call itself evaluates to true.
+func (e *Exec) enumLemma(st *State, call *ast.CallExpr) Term {
+	if len(call.Args) != 5 {
+		e.unsupported(call.Pos(), "__enumlemma(s, set, P, Q, PQ)")
+		return True
+	}
+	var lits [3]*ast.FuncLit
+	for i := 0; i < 3; i++ {
+		l, ok := call.Args[2+i].(*ast.FuncLit)
+		if !ok {
+			e.unsupported(call.Pos(), "__enumlemma(s, set, P, Q, PQ): function literals expected")
+			return True
+		}
+		lits[i] = l
+	}
+	enum := e.enumPred(st, call)
+	s := e.eval(st, call.Args[0])
+	set := e.evalSet(st, call.Args[1])
+	if !strings.HasPrefix(s.Sort, "Sl_") {
+		e.unsupported(call.Pos(), "__enumlemma on %s", s.Sort)
+		return True
+	}
+	qn, qfv, _ := e.countFun(st, call, lits[1], true, s.Sort)
+	pqn, pqfv, ks := e.countFun(st, call, lits[2], false, "")
+	if qn == "" || pqn == "" {
+		return True
+	}
+	e.Ctx.fresh++
+	k := Term{fmt.Sprintf("k!q%d", e.Ctx.fresh), ks}
+	var bodies [3]Term
+	for i, l := range lits {
+		param, body := e.lambdaBody(st, l)
+		if param == nil {
+			return True
+		}
+		old, had := e.bound[param]
+		e.bound[param] = k
+		bodies[i] = e.eval(st, body)
+		if had {
+			e.bound[param] = old
+		} else {
+			delete(e.bound, param)
+		}
+	}
+	hyp := fmt.Sprintf("(forall ((%s %s)) (=> (select %s %s) (= %s (and %s %s))))", k.S, ks, set.S, k.S, bodies[2].S, bodies[0].S, bodies[1].S)
+	seqc := app(SInt, qn, append([]Term{e.S.SlArr(s), e.S.SlLen(s)}, qfv...)...)
+	setc := app(SInt, pqn, append([]Term{set}, pqfv...)...)
+	fact := Term{fmt.Sprintf("(=> (and %s %s) (= %s %s))", enum.S, hyp, seqc.S, setc.S), SBool}
+	e.Ctx.NeedsQuant = true
+	e.Ctx.Assume(True, fact)
+	e.Assumed["mathematical rule (__enumlemma): counting over a duplicate-free enumeration of a finite set equals counting over the set"] = true
+	return True
 }
 
 // ---------------------------------------------------------------------------------------------
@@ -1353,6 +1437,7 @@ func (e *Exec) sumSeq(st *State, call *ast.CallExpr) Term {
 			fvs = append(fvs, t.Sort)
 		}
 	}
+	fv, fvs = orderByFirstUse(v.S, fv)
 	canon := v.S
 	for i, a := range fv {
 		canon = replaceSymbol(canon, a.S, fmt.Sprintf("$a%d", i))
